@@ -10,6 +10,14 @@ CHECKS = {
     technique="deterministic simulation: seeded one-fs-op-at-a-time scheduling of real uploader/mirror/reader processes with SIGKILL and errno injection at every sim point",
     text="Seeded exploration of process interleavings on one LocalArchive directory with an invariant evaluated on the real directory after every scheduler step; in enumeration cases every sim point of the chosen actor is killed in turn (exhaustive per sampled world/schedule). Sampling, not proof.",
     note="Trusts the kernel's atomic link/unlink/rename and the stdlib gzip/tarfile used by the independent validator; crash = process crash (no power loss)."),
+ "C10": dict(level="fault_enumeration", engine="procsim+crashfs", ref="5/C10",
+    technique="deterministic simulation: recorded fs-operation trace cut after every prefix, crash images from a durability model (torn/zeroed/garbled unsynced data); seeded process interleavings for the lock",
+    text="For each sampled history of state mutators every prefix of the recorded file-system trace is a crash point (exhaustive per history) and several crash images per point are loaded by a fresh _BobState and compared field by field with the saved snapshots; single-writer is explored with real processes under a seeded one-operation-at-a-time schedule.",
+    note="The durability model (ordered atomic metadata, arbitrary unsynced data) is a model, not a real power cut; snapshots are captured at pickle.dump inside the real code."),
+ "C15": dict(level="exploration", engine="procsim", ref="5/C15",
+    technique="deterministic simulation: seeded one-fs-op-at-a-time scheduling of real project/gc processes on one shared store with real flocks; invariants I1-I7 checked between steps",
+    text="Seeded exploration of process interleavings of the real builder share code path (_useSharedPackage/_installSharedPackage) and LocalShare.gc on one store; completeness, install-once, no collection of linked packages, accounting, LRU/quota minimality, no spurious failure, no deadlock are checked after every step / at quiescence. One genuine defect is recorded in known_findings.json.",
+    note="Step objects are stubs, the build itself is a harness write; actor crashes are not part of the asserted configuration; a link created after a gc took the store lock is not counted as use (probe only)."),
  "C11": dict(level="exploration", engine="history+clock", ref="5/C11",
     technique="deterministic simulation: model-based history simulation with a simulated stat clock; cached vs uncached vs canonical tree model",
     text="Seeded histories of tree modifications with the persistent hash cache living across them; cached == uncached hash and hash equality <=> canonical-serialisation equality are checked at every hash point. Sampling, not proof.",
